@@ -46,6 +46,7 @@ type c11obs struct {
 	results        []string // per call: "ok" | "err:..." | "wrong:..." | "hung"
 	lateCall       string
 	callbacks      int32
+	moreCallbacks  [2]int32
 	eventsEnd      string // closed | hung
 	eventsSeen     int
 	faultHit       bool
@@ -239,6 +240,11 @@ func c11run(p c11plan, seed int64) c11obs {
 			<-callsReturned
 		}
 	})
+	// two more callbacks registered beforehand: each of them fires exactly once as well
+	for k := range obs.moreCallbacks {
+		k := k
+		client.OnDisconnect(func(err error) { atomic.AddInt32(&obs.moreCallbacks[k], 1) })
+	}
 	cancelSub, events, _ := client.Subscribe(c11svc, c11obj, 200)
 	_ = cancelSub
 	evDone := make(chan struct{})
@@ -345,6 +351,9 @@ func c11run(p c11plan, seed int64) c11obs {
 		time.Sleep(50 * time.Microsecond)
 	}
 	obs.callbacks = atomic.LoadInt32(&obs.callbacks)
+	for k := range obs.moreCallbacks {
+		obs.moreCallbacks[k] = atomic.LoadInt32(&obs.moreCallbacks[k])
+	}
 	obs.ops = a.Ops()
 	ep.Close()
 	b.Close()
@@ -498,7 +507,7 @@ func c11real(c *wk.Ctx, i int, rng *rand.Rand) {
 }
 
 func c11(c *wk.Ctx) {
-	c.Note("rule", "fault enumeration over one scenario: a real bus.Client on a harness stream, OnDisconnect callback, one subscription, K in {1,3,8} concurrent calls answered by a scripted peer (one event, then each reply). The fault-free run counts the client's I/O operations (reads per fragment, one write per frame); plans: a fault (EOF, reset, short count + error; sticky) at every operation index, peer close after every byte count of its output, local Close() at every operation, a second fault at a later operation (thorough), a peer that stops reading after every byte count of the client's output (8-byte buffer: a Send is blocked mid-write) followed by a local Close() or a peer close, and the early-reply schedule (Send returns only after the reply was consumed by the reader); each under whole-read and fragmented-read delivery, a quarter with a stream whose Close reports an error, a third with a disconnect callback that blocks until the calls in flight have returned; stream real = the same oracle over unix and tcp with the real server: 1-6 calls parked inside the method body, then Server.Terminate() or the client closing its session. Oracle: every call returns (quiescence detector), success only with its own reply; without a fault every call succeeds; after the fault later calls fail, the events channel is closed, the disconnect callback ran exactly once. Distinct non-trivial = distinct plans whose fault was actually reached while a call or the subscription was pending.")
+	c.Note("rule", "fault enumeration over one scenario: a real bus.Client on a harness stream, three OnDisconnect callbacks, one subscription, K in {1,3,8} concurrent calls answered by a scripted peer (one event, then each reply). The fault-free run counts the client's I/O operations (reads per fragment, one write per frame); plans: a fault (EOF, reset, short count + error; sticky) at every operation index, peer close after every byte count of its output, local Close() at every operation, a second fault at a later operation (thorough), a peer that stops reading after every byte count of the client's output (8-byte buffer: a Send is blocked mid-write) followed by a local Close() or a peer close, and the early-reply schedule (Send returns only after the reply was consumed by the reader); each under whole-read and fragmented-read delivery, a quarter with a stream whose Close reports an error, a third with a disconnect callback that blocks until the calls in flight have returned; stream real = the same oracle over unix and tcp with the real server: 1-6 calls parked inside the method body, then Server.Terminate() or the client closing its session. Oracle: every call returns (quiescence detector), success only with its own reply; without a fault every call succeeds; after the fault later calls fail, the events channel is closed, the disconnect callback ran exactly once. Distinct non-trivial = distinct plans whose fault was actually reached while a call or the subscription was pending.")
 	type cfg struct{ K, Frag int }
 	cfgs := []cfg{{1, 0}, {1, 7}, {3, 0}, {3, 5}}
 	if c.Thorough() {
@@ -593,6 +602,12 @@ func c11(c *wk.Ctx) {
 		if obs.callbacks != 1 {
 			c.Viol("plan", i, key(fmt.Sprintf("callback=%d-times", obs.callbacks)), fmt.Sprintf("the disconnect callback ran %d times", obs.callbacks), detail)
 			return
+		}
+		for k, n := range obs.moreCallbacks {
+			if n != 1 {
+				c.Viol("plan", i, key(fmt.Sprintf("callback=%d-times", n)), fmt.Sprintf("disconnect callback #%d of three registered beforehand ran %d times", k+2, n), detail)
+				return
+			}
 		}
 		if !faulted && p.Kind != "earlyreply" && obs.eventsSeen != 1 {
 			c.Viol("plan", i, key("event=lost"), fmt.Sprintf("%d events delivered to the subscriber, 1 was sent", obs.eventsSeen), detail)
